@@ -516,9 +516,15 @@ func (r *runner) seqs(alpha []Op, depth int, f func(ops []Op)) {
 }
 
 func run(c *hl.Ctx) {
-	c.Rule("explicit enumeration of operation sequences on two real Protocol endpoints after the real simple handshake. Families: F1 = all sequences <= d1 over {SetChunkSize n in {1,2,127,128,129,4096,65536,2^31-1}, video message with payload length in {1,c-1,c,c+1,2c,2c+1}} x both directions; F2 = all sequences <= d2 over messages {5 media/command types + 4 control types} x stream id {0,1,2^31-1,2^32-1} x timestamp {0,1,0xFFFFFE,0xFFFFFF,0x1000000,2^31-1} x length {1,c+1}; F3 = SetChunkSize by either side followed by all message pairs of a reduced alphabet. After every operation the peer reads one message (type, stream id, timestamp, payload compared). Read segmentations: whole, 1-byte, every 2-split (all offsets for streams <= 700 B, around every chunk boundary otherwise), 3-splits in thorough. state = canonical reflection dump of both endpoints; transition = one operation. Non-trivial = distinct session read back completely.")
+	c.Rule("explicit enumeration of operation sequences on two real Protocol endpoints after the real simple handshake. Families: F1 = all sequences <= d1 over {SetChunkSize n in {1,2,127,128,129,4096,65536,2^31-1}, video message with payload length in {1,c-1,c,c+1,2c,2c+1}} x both directions; F2 = all sequences <= d2 over messages {5 media/command types + 4 control types} x stream id {0,1,2^31-1,2^32-1} x timestamp {0,1,0xFFFFFE,0xFFFFFF,0x1000000,2^31-1} x length {1,c+1}; F3 = SetChunkSize by either side followed by all message pairs of a reduced alphabet. After every operation the peer reads one message (type, stream id, timestamp, payload compared). Read segmentations: whole, 1-byte, every 2-split (all offsets for streams <= 700 B, around every chunk boundary otherwise), 3-splits in thorough. state = canonical reflection dump of both endpoints; transition = one operation. Non-trivial = distinct session read back completely." + hsRule)
 	c.Assume("messages are created with NewStreamMessage/WritePacket (the library chooses the chunk stream)", "payload bytes are a position-dependent pattern", "Set Chunk Size is announced with WritePacket(SetChunkSize); raw type-1/type-2 messages are outside the alphabet")
+	c.Assume("F4: the in-memory transport makes every written byte available to the next read; the handshake packets are written and read with the library's Handshake methods in the stated program orders")
 	r := &runner{c: c}
+	// F4 first: it is cheap and must not depend on the budget left by the deeper families
+	r.handshakeFamily()
+	if c.Expired() {
+		return
+	}
 	d1, d2 := 3, 2
 	if c.Thorough() {
 		d1 = 4
@@ -595,6 +601,17 @@ func replay(c *hl.Ctx, raw json.RawMessage) {
 		Cut  int  `json:"cut"`
 		Cut2 int  `json:"cut2"`
 		Def  int  `json:"defer"`
+	}
+	var fam struct {
+		Family string `json:"family"`
+	}
+	if err := json.Unmarshal(raw, &fam); err == nil && fam.Family == "handshake-boundary" {
+		var hc hsCase
+		if err := json.Unmarshal(raw, &hc); err != nil {
+			panic(err)
+		}
+		replayHS(c, hc)
+		return
 	}
 	if err := json.Unmarshal(raw, &cs); err != nil {
 		panic(err)
